@@ -79,8 +79,10 @@ def scenario_specs(tier, rng):
         specs.append(dict(kind="real_timeout", stack=stack))
     for v in ("authfail", "keyonly", "handshake"):
         specs.append(dict(kind="paramiko", stack="sync", variant=v))
-    for v in ("authfail", "timeout", "oserror"):
+    for v in ("authfail", "timeout", "oserror", "ok"):
         specs.append(dict(kind="asyncssh", stack="async", variant=v))
+    for v in ("ok", "bad"):
+        specs.append(dict(kind="system", stack="sync", variant=v))
     specs.append(dict(kind="asyncssh", stack="async", variant="authfail", ctx=True))
     # metacharacter variants: every META string is used as prefix and as suffix somewhere
     out = []
